@@ -11,6 +11,7 @@ import (
 	"time"
 
 	dragonboat "github.com/lni/dragonboat/v4"
+	"github.com/lni/dragonboat/v4/client"
 	"github.com/lni/dragonboat/v4/raftio"
 	pb "github.com/lni/dragonboat/v4/raftpb"
 	"github.com/lni/dragonboat/v4/verifh/linz"
@@ -535,4 +536,118 @@ func (h *Host) CheckRecovered(frozen map[[2]uint64]*Shadow) {
 		h.shadows[k] = rec
 		h.mu.Unlock()
 	}
+}
+
+// RunSessionClients runs n clients that use registered client sessions and,
+// as the API prescribes, retry a proposal with the same series id after a
+// timeout (possibly through another host) until it completes; a Rejected
+// proposal ends the session (the client registers a new one and goes on with
+// new payloads). One history operation per logical proposal.
+func (w *Workload) RunSessionClients(n, ops, paceMs int, stop <-chan struct{}) {
+	var wg sync.WaitGroup
+	ids := make([]uint64, 0, len(w.Replicas))
+	for id := range w.Replicas {
+		ids = append(ids, id)
+	}
+	sortU64(ids)
+	for c := 0; c < n; c++ {
+		wg.Add(1)
+		go func(c int) {
+			defer wg.Done()
+			rng := rand.New(rand.NewSource(w.Seed*977 + int64(c)))
+			stopped := func() bool {
+				select {
+				case <-stop:
+					return true
+				default:
+					return false
+				}
+			}
+			pick := func() *Host { return w.C.Hosts[w.Replicas[ids[rng.Intn(len(ids))]]] }
+			for done := 0; done < ops && !stopped(); {
+				// register a session
+				var cs *client.Session
+				for cs == nil && !stopped() {
+					if nh := pick().nodeHost(); nh != nil {
+						ctx, cancel := context.WithTimeout(context.Background(), w.Timeout)
+						s, err := nh.SyncGetSession(ctx, w.ShardID)
+						cancel()
+						if err == nil {
+							cs = s
+							w.count("sessions_registered", 1)
+						}
+					}
+					if cs == nil {
+						time.Sleep(20 * time.Millisecond)
+					}
+				}
+				if cs == nil {
+					return
+				}
+				alive := true
+				for alive && done < ops && !stopped() {
+					key := byte(rng.Intn(w.Keys))
+					id := NewID()
+					cmd := MakeCmd(key, id)
+					call := w.C.Clock.Now()
+					opid := w.Hist.begin(linz.Op{Client: 1000 + c, Append: true, Key: KeyName(key), Value: id, Call: call, Via: "session client"})
+					out := linz.Unknown
+					var pos uint64
+					attempts := 0
+					for attempts < 40 && !stopped() {
+						h := pick()
+						nh := h.nodeHost()
+						if nh == nil {
+							time.Sleep(10 * time.Millisecond)
+							continue
+						}
+						attempts++
+						acall := w.C.Clock.Now()
+						ctx, cancel := context.WithTimeout(context.Background(), w.Timeout)
+						res, err := nh.SyncPropose(ctx, cs, cmd)
+						cancel()
+						if err == nil {
+							if w.afterCrash(h, acall) {
+								// completed on state that may not have been durable: the
+								// session cannot be trusted any more
+								alive = false
+								break
+							}
+							if len(res.Data) != 8 || binary.BigEndian.Uint64(res.Data) != id {
+								w.C.Sink.Violation("C12", "result-of-another-request", fmt.Sprintf("session proposal %d completed with a result that carries id %x", id, res.Data), nil)
+							}
+							out, pos = linz.OK, res.Value
+							cs.ProposalCompleted()
+							if attempts > 1 {
+								w.count("session_proposals_completed_by_retry", 1)
+							}
+							break
+						}
+						if errors.Is(err, dragonboat.ErrRejected) || errors.Is(err, dragonboat.ErrInvalidSession) {
+							// the session is gone on the server side: the client must stop using it
+							alive = false
+							w.count("session_rejected", 1)
+							break
+						}
+						w.count("session_retries", 1)
+					}
+					if attempts >= 40 {
+						alive = false
+					}
+					ret := w.C.Clock.Now()
+					w.Hist.end(opid, func(op *linz.Op) { op.Outcome, op.Ret, op.Pos = out, ret, pos })
+					done++
+					if out == linz.OK {
+						w.count("session_append_ok", 1)
+					} else {
+						w.count("session_append_unknown", 1)
+					}
+					if paceMs > 0 {
+						time.Sleep(time.Duration(rng.Intn(paceMs*1000)) * time.Microsecond)
+					}
+				}
+			}
+		}(c)
+	}
+	wg.Wait()
 }
